@@ -6,8 +6,8 @@
 EXTENDS MatryerMockContract, TLC, Json
 
 Trace == ndJsonDeserialize("trace.ndjson")
-VARIABLES tsig, topt, tfunc, tlog, l
-tvars == <<tsig, topt, tfunc, tlog, l>>
+VARIABLES tsig, topt, tfunc, tlog, tby, l
+tvars == <<tsig, topt, tfunc, tlog, tby, l>>
 
 Ev == Trace[l]
 
@@ -15,19 +15,21 @@ TraceInit == /\ tsig = [m \in Methods |-> [ar |-> 0, var |-> FALSE, nres |-> 0]]
              /\ topt = [stub |-> FALSE, resets |-> FALSE]
              /\ tfunc = [m \in Methods |-> Nil]
              /\ tlog = [m \in Methods |-> << >>]
+             /\ tby = [m \in Methods |-> << >>]
              /\ l = 1
 
 Reset == /\ l <= Len(Trace) /\ Ev.op = "reset"
          /\ tsig' = Ev.sig /\ topt' = Ev.opt /\ tfunc' = Ev.init
          /\ tlog' = [m \in Methods |-> << >>]
+         /\ tby' = Ev.by                    \* what the bystander instance holds before the history starts
          /\ l' = l + 1
 
 Step == /\ l <= Len(Trace) /\ Ev.op # "reset"
-        /\ StepOK(tsig, topt, tfunc, tlog, Ev)
+        /\ StepOK(tsig, topt, tfunc, tlog, tby, Ev)
         /\ tfunc' = FuncsAfter(tfunc, Ev)
         /\ tlog' = Ev.logs
         /\ l' = l + 1
-        /\ UNCHANGED <<tsig, topt>>
+        /\ UNCHANGED <<tsig, topt, tby>>
 
 \* Anything the contract does not allow: the replay is REJECTED at this event (reported), and validation
 \* resumes at the next replay so that one TLC run judges every recorded replay.
@@ -35,11 +37,11 @@ NextReset(i) == IF \E j \in (i + 1)..Len(Trace) : Trace[j].op = "reset"
                 THEN CHOOSE j \in (i + 1)..Len(Trace) : Trace[j].op = "reset" /\ \A k \in (i + 1)..(j - 1) : Trace[k].op # "reset"
                 ELSE Len(Trace) + 1
 Reject == /\ l <= Len(Trace) /\ Ev.op # "reset"
-          /\ ~StepOK(tsig, topt, tfunc, tlog, Ev)
-          /\ PrintT(<<"REJECT", Ev.case, l, FailedClause(tsig, topt, tfunc, tlog, Ev)>>)
+          /\ ~StepOK(tsig, topt, tfunc, tlog, tby, Ev)
+          /\ PrintT(<<"REJECT", Ev.case, l, FailedClause(tsig, topt, tfunc, tlog, tby, Ev)>>)
           /\ TLCSet(2, TLCGet(2) + 1)
           /\ l' = NextReset(l)
-          /\ UNCHANGED <<tsig, topt, tfunc, tlog>>
+          /\ UNCHANGED <<tsig, topt, tfunc, tlog, tby>>
 
 TraceNext == (Reset \/ Step \/ Reject) /\ TLCSet(1, l')
 TraceSpec == TraceInit /\ TLCSet(1, 1) /\ TLCSet(2, 0) /\ [][TraceNext]_tvars
